@@ -7,6 +7,7 @@
 #pragma once
 
 #include <pika/config.hpp>
+#include <pika/config/verif_hooks.hpp>
 
 #if defined(PIKA_HAVE_STDEXEC)
 # include <pika/execution_base/stdexec_forward.hpp>
@@ -293,6 +294,7 @@ namespace pika::ensure_started_detail {
                 // sent by the predecessor have already been stored in the
                 // shared state by now.
                 os.reset();
+                PIKA_VERIF_POINT("sh.done", this, v.index(), 0);
 
                 predecessor_done = true;
 
@@ -332,6 +334,7 @@ namespace pika::ensure_started_detail {
                     std::lock_guard<mutex_type> l{mtx};
                 }
 
+                PIKA_VERIF_POINT("sh.run", this, continuation.has_value() ? 1 : 0, 0);
                 if (continuation)
                 {
                     (*continuation)();
@@ -344,8 +347,10 @@ namespace pika::ensure_started_detail {
             {
                 PIKA_ASSERT(!continuation.has_value());
 
+                PIKA_VERIF_POINT("sh.chk1", this, 0, 0);
                 if (predecessor_done)
                 {
+                    PIKA_VERIF_POST("sh.seen1", this, 1, 0);
                     // If we read predecessor_done here it means that one of
                     // set_error/set_stopped/set_value has been called and
                     // values/errors have been stored into the shared state.
@@ -357,12 +362,14 @@ namespace pika::ensure_started_detail {
                 }
                 else
                 {
+                    PIKA_VERIF_POST("sh.seen1", this, 0, 0);
                     // If predecessor_done is false, we have to take the
                     // lock to potentially store the continuation.
                     std::unique_lock<mutex_type> l{mtx};
 
                     if (predecessor_done)
                     {
+                        PIKA_VERIF_POST("sh.seen2", this, 1, 0);
                         // By the time the lock has been taken,
                         // predecessor_done might already be true and we can
                         // release the lock early and call the continuation
@@ -373,6 +380,7 @@ namespace pika::ensure_started_detail {
                     }
                     else
                     {
+                        PIKA_VERIF_POST("sh.seen2", this, 0, 0);
                         // If predecessor_done is still false, we store the
                         // continuation. This has to be done while holding
                         // the lock since predecessor signalling completion
